@@ -838,6 +838,19 @@ func (r *c13Run) owes(name string) bool {
 	return bp != nil && !bp.didTimeout && bp.numPending > 0
 }
 
+// some requester has a peer assigned and no block: its 30 s retry timer is running
+func (r *c13Run) retryPending() bool {
+	pool := r.bcR.pool
+	pool.mtx.Lock()
+	defer pool.mtx.Unlock()
+	for _, q := range pool.requesters {
+		if q.getPeerID() != "" && q.getBlock() == nil {
+			return true
+		}
+	}
+	return false
+}
+
 func (r *c13Run) inPool(name string) bool {
 	pool := r.bcR.pool
 	pool.mtx.Lock()
@@ -950,7 +963,7 @@ func (r *c13Run) execute() {
 		}
 	}
 	// fair closure: until hand-over, or until nothing can move any more
-	deadline := time.Now().Add(60 * time.Second)
+	deadline := time.Now().Add(150 * time.Second)
 	idleWait := 6 * time.Second
 	if !r.hasHonest() {
 		idleWait = 1500 * time.Millisecond
@@ -961,13 +974,23 @@ func (r *c13Run) execute() {
 		if r.isHanded() || pairStuck {
 			break
 		}
+		// (sampled BEFORE looking for something to do: an event that arrives right after the
+		// look -- a request of a starved requester goroutine -- must end the idle wait below)
+		before := atomic.LoadInt64(&r.nev)
 		if r.closureStep() {
 			continue
 		}
 		// nothing to do for the environment: give the node's tickers time (hand-over ticker: 1 s)
-		before := atomic.LoadInt64(&r.nev)
 		t0 := time.Now()
-		for time.Since(t0) < idleWait && atomic.LoadInt64(&r.nev) == before && !r.isHanded() {
+		limit := idleWait
+		if r.retryPending() {
+			// A requester waits for a block from a peer that will never answer and nobody will tell it
+			// to redo (pickIncrAvailablePeer returned the peer, removePeer ran before the requester had
+			// stored the peer id: removePeer does not find it).  The code heals itself after
+			// requestRetrySeconds (30 s, a constant): not a stall before that.
+			limit = (requestRetrySeconds + 6) * time.Second
+		}
+		for time.Since(t0) < limit && atomic.LoadInt64(&r.nev) == before && !r.isHanded() {
 			time.Sleep(10 * time.Millisecond)
 		}
 		if atomic.LoadInt64(&r.nev) == before && !r.isHanded() {
